@@ -329,7 +329,7 @@ def h_spell_history(f: int, g: int, cls: int):
 BAD_NAMES = ('redd', 'bold_', 'fg', 'nosuch', 'rgb', 'rgb()', 'color256', 'bold red', 'reD!', '1.5', '0x10', 'bg_', '--', 'bold,red')
 BAD_RGB = ('rgb(1,2)', 'rgb(1,2,3,4)', 'rgb(-1,2,3)', 'rgb(1;2;3)', 'rgb(x)', 'rgb(1,2,3', 'rgb 1,2,3', 'xx_rgb(1,2,3)', 'rgb(0x,1,2)',
            'color256()', 'color256(1,2)', 'colr256(1)', 'color256(-1)', 'ul-rgb(1,2,3)', 'rgb(1.0,2,3)', 'xcolor256(5)', 'bold color256(5)',
-           'bgcolor256(5)', 'xrgb(1,2,3)', 'fg_bg_color256(5)', 'color256(5)x', 'rgb(1,2,3))')
+           'bgcolor256(5)', 'xrgb(1,2,3)', 'fg_bg_color256(5)', 'color256(5)x')
 NEG = (-1, -2, -255, -256, -2 ** 31, -10 ** 20)
 BAD_TYPES = (1.5, b'red', {'a': 1}, object, 2 + 3j, {1, 2})
 
